@@ -84,32 +84,32 @@ mod mac_capture__pari;
 mod mac_gensym_disj__ser;
 mod mac_local_names__exp;
 mod mac_disj__par;
-mod stress_rel__par;
-mod rnd_core_03__ser;
-mod rnd_core_05__pari;
-mod rnd_core_08__par;
-mod rnd_core_11__ser;
-mod rnd_core_13__pari;
-mod rnd_core_16__par;
-mod rnd_core_19__ser;
-mod rnd_core_21__pari;
-mod rnd_core_24__par;
-mod rnd_core_27__ser;
-mod rnd_core_29__pari;
-mod rnd_agg_02__par;
-mod rnd_agg_05__ser;
-mod rnd_agg_07__pari;
-mod rnd_agg_10__par;
-mod rnd_agg_13__ser;
-mod rnd_agg_15__pari;
-mod rnd_prec_02__pari;
-mod rnd_prec_04__ser;
-mod rnd_prec_05__to;
-mod rnd_prec_07__par;
-mod rnd_prec_08__topar;
-mod rnd_prea_03__par;
-mod rnd_prea_06__ser;
-mod rnd_prea_08__pari;
+mod stress_set__par;
+mod rnd_core_02__ser;
+mod rnd_core_04__pari;
+mod rnd_core_07__par;
+mod rnd_core_10__ser;
+mod rnd_core_12__pari;
+mod rnd_core_15__par;
+mod rnd_core_18__ser;
+mod rnd_core_20__pari;
+mod rnd_core_23__par;
+mod rnd_core_26__ser;
+mod rnd_core_28__pari;
+mod rnd_agg_01__par;
+mod rnd_agg_04__ser;
+mod rnd_agg_06__pari;
+mod rnd_agg_09__par;
+mod rnd_agg_12__ser;
+mod rnd_agg_14__pari;
+mod rnd_prec_01__topar;
+mod rnd_prec_03__pari;
+mod rnd_prec_05__ser;
+mod rnd_prec_06__to;
+mod rnd_prec_08__par;
+mod rnd_prea_02__par;
+mod rnd_prea_05__ser;
+mod rnd_prea_07__pari;
 
 fn lookup(name: &str) -> fn() -> Box<dyn Driven> {
    match name {
@@ -189,32 +189,32 @@ fn lookup(name: &str) -> fn() -> Box<dyn Driven> {
       "mac_gensym_disj__ser" => mac_gensym_disj__ser::make,
       "mac_local_names__exp" => mac_local_names__exp::make,
       "mac_disj__par" => mac_disj__par::make,
-      "stress_rel__par" => stress_rel__par::make,
-      "rnd_core_03__ser" => rnd_core_03__ser::make,
-      "rnd_core_05__pari" => rnd_core_05__pari::make,
-      "rnd_core_08__par" => rnd_core_08__par::make,
-      "rnd_core_11__ser" => rnd_core_11__ser::make,
-      "rnd_core_13__pari" => rnd_core_13__pari::make,
-      "rnd_core_16__par" => rnd_core_16__par::make,
-      "rnd_core_19__ser" => rnd_core_19__ser::make,
-      "rnd_core_21__pari" => rnd_core_21__pari::make,
-      "rnd_core_24__par" => rnd_core_24__par::make,
-      "rnd_core_27__ser" => rnd_core_27__ser::make,
-      "rnd_core_29__pari" => rnd_core_29__pari::make,
-      "rnd_agg_02__par" => rnd_agg_02__par::make,
-      "rnd_agg_05__ser" => rnd_agg_05__ser::make,
-      "rnd_agg_07__pari" => rnd_agg_07__pari::make,
-      "rnd_agg_10__par" => rnd_agg_10__par::make,
-      "rnd_agg_13__ser" => rnd_agg_13__ser::make,
-      "rnd_agg_15__pari" => rnd_agg_15__pari::make,
-      "rnd_prec_02__pari" => rnd_prec_02__pari::make,
-      "rnd_prec_04__ser" => rnd_prec_04__ser::make,
-      "rnd_prec_05__to" => rnd_prec_05__to::make,
-      "rnd_prec_07__par" => rnd_prec_07__par::make,
-      "rnd_prec_08__topar" => rnd_prec_08__topar::make,
-      "rnd_prea_03__par" => rnd_prea_03__par::make,
-      "rnd_prea_06__ser" => rnd_prea_06__ser::make,
-      "rnd_prea_08__pari" => rnd_prea_08__pari::make,
+      "stress_set__par" => stress_set__par::make,
+      "rnd_core_02__ser" => rnd_core_02__ser::make,
+      "rnd_core_04__pari" => rnd_core_04__pari::make,
+      "rnd_core_07__par" => rnd_core_07__par::make,
+      "rnd_core_10__ser" => rnd_core_10__ser::make,
+      "rnd_core_12__pari" => rnd_core_12__pari::make,
+      "rnd_core_15__par" => rnd_core_15__par::make,
+      "rnd_core_18__ser" => rnd_core_18__ser::make,
+      "rnd_core_20__pari" => rnd_core_20__pari::make,
+      "rnd_core_23__par" => rnd_core_23__par::make,
+      "rnd_core_26__ser" => rnd_core_26__ser::make,
+      "rnd_core_28__pari" => rnd_core_28__pari::make,
+      "rnd_agg_01__par" => rnd_agg_01__par::make,
+      "rnd_agg_04__ser" => rnd_agg_04__ser::make,
+      "rnd_agg_06__pari" => rnd_agg_06__pari::make,
+      "rnd_agg_09__par" => rnd_agg_09__par::make,
+      "rnd_agg_12__ser" => rnd_agg_12__ser::make,
+      "rnd_agg_14__pari" => rnd_agg_14__pari::make,
+      "rnd_prec_01__topar" => rnd_prec_01__topar::make,
+      "rnd_prec_03__pari" => rnd_prec_03__pari::make,
+      "rnd_prec_05__ser" => rnd_prec_05__ser::make,
+      "rnd_prec_06__to" => rnd_prec_06__to::make,
+      "rnd_prec_08__par" => rnd_prec_08__par::make,
+      "rnd_prea_02__par" => rnd_prea_02__par::make,
+      "rnd_prea_05__ser" => rnd_prea_05__ser::make,
+      "rnd_prea_07__pari" => rnd_prea_07__pari::make,
       _ => panic!("no such program variant in this shard: {}", name),
    }
 }
